@@ -29,7 +29,11 @@ def operand(line, side):
     f, d, p, c = (line["fa"], line["da"], line["pa"], line["ca"]) if side == "a" else (line["fb"], line["db"], line["pb"], line["cb"])
     is_number = (line["kind"] == "tn" and side == "b") or (line["kind"] == "nt" and side == "a")
     if is_number:
-        return {"number": undyadic(c[0][1]) if c else 0.0}
+        # the Python number arrives as a float, an int, a Fraction or a bool (all numbers.Real), chosen by the content
+        v = undyadic(c[0][1]) if c else 0.0
+        kinds = ["float", "int", "fraction"] + (["bool"] if v in (0.0, 1.0) else [])
+        return {"number": v, "numtype": kinds[(len(line["da"]) + len(line["db"]) + int(abs(v) * 2) + len(line["op"]) + ord(line["op"][0])) % len(kinds)]
+                if float(v).is_integer() else ["float", "fraction"][int(abs(v) * 4) % 2]}
     return {"fmt": f, "dims": list(d), "levels": p["levels"], "vals": [undyadic(v) for v in p["vals"]]}
 
 
